@@ -295,8 +295,12 @@ func (e *Exec) concretize(t *Term, lo, hi int, what string) int {
 	}
 	var vals []int64
 	excl := []*Term{}
-	for len(vals) <= hi-lo+1 {
-		r := e.sol.Prove(e.tb, e.pcWith(excl...), []*Term{t}, e.cfg.FeasTimeout)
+	maxCount := hi - lo + 1
+	if maxCount > e.cfg.MaxConcretize+1 {
+		maxCount = e.cfg.MaxConcretize + 1
+	}
+	for {
+		r := e.sol.Prove(e.tb, append(e.slicePC(t), excl...), []*Term{t}, e.cfg.FeasTimeout)
 		if r.Status == "unsat" {
 			break
 		}
@@ -307,11 +311,9 @@ func (e *Exec) concretize(t *Term, lo, hi int, what string) int {
 		if t.w < 64 {
 			v = sext64(uint64(v), t.w)
 		}
-		if v < int64(lo) || v > int64(hi) {
-			e.notes = append(e.notes, fmt.Sprintf("BOUND: %s has feasible value %d outside [%d,%d]; values outside are not explored", what, v, lo, hi))
-			excl = append(excl, e.tb.And(e.tb.Sle(e.tb.Const(t.w, uint64(lo)), t), e.tb.Sle(t, e.tb.Const(t.w, uint64(hi)))))
-			e.boundHit(what)
-			continue
+		if v < int64(lo) || v > int64(hi) || len(vals) >= maxCount {
+			// never silently dropped: the path is reported as not decided
+			panic(pathAbort{"bound", fmt.Sprintf("%s has more than %d feasible values or a value outside [%d,%d] (e.g. %d)", what, maxCount, lo, hi, v)})
 		}
 		vals = append(vals, v)
 		excl = append(excl, e.tb.Ne(t, e.tb.Const(t.w, uint64(v))))
@@ -330,9 +332,6 @@ func (e *Exec) concretize(t *Term, lo, hi int, what string) int {
 	return int(vals[0])
 }
 
-func (e *Exec) boundHit(what string) {
-	e.opaque["boundhits"] = append(e.opaque["boundhits"].([]string), what)
-}
 
 // ---------- trail (undo log) ----------
 
